@@ -26,8 +26,18 @@ def _sweep(ctx):
                       % (out.get("strings", 0), len(out.get("violations", [])))]}
 
 
+_spec_rc = importlib.util.spec_from_file_location("tools_releasecheck", os.path.join(_root, "tools", "releasecheck.py"))
+_rc = importlib.util.module_from_spec(_spec_rc)
+_spec_rc.loader.exec_module(_rc)
+
+
+def _release(ctx):
+    """thorough tier: the same cases through a --release build of the harness, identical observations required"""
+    return _rc.release_crosscheck(ctx, ['c02'], PROP['n_thorough'])
+
+
 PROP = {'gen': [],
- 'extra': [_sweep],
+ 'extra': [_sweep, _release],
  'pre_coq': [_dfa.pre_coq],
  'coq_props': ['theories/Props/C02.vo'],
  'coq_corr': ['theories/Corr/C02Corr.vo'],
